@@ -350,8 +350,14 @@ class Juxta:
                                      'every identifier X defined as [X])', 'input': single, 'expected': want3, 'got': m3.get(k), 'tokens': toks,
                              'output': out_lines[k] if k < len(out_lines) else None, 'second_pass_options': [f'-D{m}=[{m}]' for m in marks if m in toks]})
             if k < len(out_lines) and k < len(want_lines) and out_lines[k] + '\n' != want_lines[k]:
-                self.corr.disagreements.append({'kind': 'print_tokens/need_space model vs chibicc -E', 'input': single,
-                                                'impl': out_lines[k], 'model': want_lines[k].rstrip('\n')})
+                # the flags of expansion results are the preprocessor's business: an extra blank is cosmetic (counted);
+                # a blank the model of need_space asks for and chibicc does not print is a disagreement
+                verdict = compare_spacing([f'Z{k}_'] + toks, out_lines[k], want_lines[k].rstrip('\n'))
+                if verdict == 'extra-blank':
+                    self.corr.count('cosmetic-extra-blank')
+                else:
+                    self.corr.disagreements.append({'kind': 'print_tokens/need_space model vs chibicc -E', 'input': single,
+                                                    'impl': out_lines[k], 'model': want_lines[k].rstrip('\n')})
         if rc2 != 0 or out2 != out1:
             # find the lines responsible
             found = False
@@ -366,6 +372,28 @@ class Juxta:
                 viol.append({'what': 'preprocessing the -E output again changes it', 'input': source[:2000], 'expected': out1[:2000],
                              'got': (out2 if rc2 == 0 else err2)[:2000]})
         return viol
+
+
+def spacing(tokens, line):
+    """number of blanks before each token of `tokens` in `line`, or None if the line is not those tokens and blanks"""
+    out, i = [], 0
+    for t in tokens:
+        n = 0
+        while i < len(line) and line[i] == ' ':
+            i += 1
+            n += 1
+        if not line.startswith(t, i):
+            return None
+        i += len(t)
+        out.append(n)
+    return out if i == len(line) else None
+
+
+def compare_spacing(tokens, impl_line, model_line):
+    a, b = spacing(tokens, impl_line), spacing(tokens, model_line)
+    if a is None or b is None:
+        return 'different'
+    return 'extra-blank' if all(x >= y for x, y in zip(a, b)) else 'different'
 
 
 def fuses(model_results, toks):
@@ -787,7 +815,9 @@ MANIFEST = {
                   'list of tokens whose spellings are self-lexing (with arbitrary at_bol/has_space flags) the printed -E text lexes back to '
                   'exactly those spellings (C19_roundtrip), because need_space is sound for every pair of spellings (C19_need_space_sound: '
                   'maximal munch cannot cross a boundary where no separator is printed) and a space or newline never changes the sequence '
-                  '(C19_space_harmless); a second print∘lex pass is the identity on the text (C19_idempotent_partial, for lists with no `#` at '
+                  '(C19_space_harmless); every token tokenize produces has a self-lexing spelling, so the hypothesis covers every token the '
+                  'preprocessor can hold (C19_lexed_tokens_self_lexing); the loop bound of the model is sufficient (C19_lex_fuel_suffices); '
+                  'a second print∘lex pass is the identity on the text (C19_idempotent_partial, for lists with no `#` at '
                   'line start and no macro name — the preprocessor itself is not modelled here).  The models are tied to the code on every '
                   'run: tables and need_space are regenerated from the source, and chibicc -E must reproduce the model byte for byte on '
                   'macro-free texts and on all ordered pairs of an alphabet of every token class; the same-assembly half of the property and '
